@@ -419,6 +419,12 @@ class Gen:
         root = Scope("file", None, fname)
         self.p.roots[fname] = root
         self.gen_block(fname, root, 1, 2, True, None)
+        if self.rng.random() < 0.5:
+            nm = self.p.fresh_name(self.rng, "d") + "_" + self.p.fresh_name(self.rng, "s")
+            self.p.used_names.add(nm)
+            ln = self.emit(fname, "%s: nop" % nm)
+            dl = self.add_def(nm, "label", root, fname, ln, 0)
+            dl.tagline = (fname, ln)
         # a label block that uses the file's own top-level names from inside (also from a nested block and through
         # `super`): when the block is imported by name, these lookups must still go through THIS file's scope
         consts = [d for d in root.defs.values() if d.kind in ("const", "var", "label")]
@@ -508,7 +514,7 @@ class Gen:
             self.gen_macro(main, root, False)
         # import statements (root level of main)
         for fname, froot in imports:
-            style = rng.choice(["star", "specific", "specific_as", "star_as"])
+            style = rng.choice(["star", "specific", "specific_as", "specific_as", "star_as"])
             top = [d for d in froot.defs.values()]
             if style in ("specific", "specific_as") and top:
                 picks = rng.sample(top, min(len(top), rng.randrange(1, 3)))
@@ -519,7 +525,7 @@ class Gen:
                 col = 8
                 for d in picks:
                     if style == "specific_as" or d.name in root.defs or any(a[1] == d.name for a in args):
-                        alias = p.fresh_name(rng, "a")
+                        alias = self.pick_alias(d.name, root)
                         s = "%s as %s" % (d.name, alias)
                         p.occs.append(Occ(main, ln, col, d.name, "imp_name", d=d))
                         p.occs.append(Occ(main, ln, col + len(d.name) + 4, alias, "imp_alias", d=d))
@@ -653,6 +659,29 @@ class Gen:
             p.lines[f] = [l if l is not None else "nop" for l in p.lines[f]]
         return p
 
+    def pick_alias(self, name, root):
+        """the alias of `.import name as alias`: often a prefix / inner part of the imported name (`draw_sprite as draw`,
+        `init_screen as init`) or `a` / `s` (letters of the keyword `as`), so that the alias text also occurs EARLIER in
+        the argument than where the alias stands"""
+        rng, p = self.rng, self.p
+        cands = []
+        r = rng.random()
+        if r < 0.45:
+            if "_" in name:
+                cands += [name.split("_")[0], name.split("_")[-1]]
+            cands += [name[:k] for k in (2, 3) if len(name) > k] + [name[1:3]]
+            self.p.features.add("alias_inside_imported_name")
+        elif r < 0.65:
+            cands += ["a", "s"]
+            self.p.features.add("alias_letter_of_as")
+        rng.shuffle(cands)
+        for c in cands:
+            if c and c[0].isalpha() and c not in p.used_names and c not in NAMES and c not in root.defs and c[:3] not in MNEMONICS \
+                    and c.lower() != "super":
+                p.used_names.add(c)
+                return c
+        return p.fresh_name(rng, "a")
+
     def import_namespace(self, main, root, fname, froot):
         p = self.p
         ns = p.fresh_name(self.rng, "n")
@@ -700,8 +729,10 @@ class Gen:
         u.target_hint = d
         p.uses.append(u)
         col = 6
+        is_alias = not isinstance(tgt, Scope) and visible != tgt.name
         for i, seg in enumerate(path):
-            p.occs.append(Occ(file, ln, col, seg, "use" if i == len(path) - 1 else "seg", path=path, index=i, stmt=u))
+            p.occs.append(Occ(file, ln, col, seg, "use" if i == len(path) - 1 else "seg", path=path, index=i, stmt=u,
+                              note="alias_use" if (is_alias and i == 0) else None))
             col += len(seg) + 1
         p.features.add("path_imported")
 
